@@ -299,7 +299,9 @@ def convert_permitted_alphabet(_s, _l, tokens):
     values = []
 
     for token in tokens[1:]:
-        if isinstance(token[0], list):
+        if token == '...':
+            values.append(EXTENSION_MARKER)
+        elif isinstance(token[0], list):
             for char in token[0][0]:
                 values.append((char, char))
         else:
@@ -571,6 +573,10 @@ def convert_type(tokens, parameters):
 
             if 'size' in converted_type:
                 converted_type['size'].append(None)
+
+            if ('from' in converted_type
+                and EXTENSION_MARKER not in converted_type['from']):
+                converted_type['from'].append(EXTENSION_MARKER)
         elif len(constraint_tokens) == 1:
             if not isinstance(constraint_tokens[0], dict):
                 restricted_to.append(convert_number(constraint_tokens[0]))
